@@ -296,6 +296,51 @@ def run(ck):
             ck.case("chain-" + name, key=("A", s))
 
     # ------------------------------------------------------------------ (B)
+    def expected_known(kind, prefix, deep):
+        """Truth-table cell: must (kind x prefix x context) still be the same kind?  Yes exactly when the
+        prefix/context alleges nothing the kind does not already guarantee (None = malformed prefix)."""
+        if prefix not in (b"", b"ro.", b"imm."):
+            return None
+        readonly = kind.level != "w"
+        immutable = (not kind.mutable) or kind.level == "v"
+        if deep or prefix == b"imm.":
+            return readonly and immutable
+        if prefix == b"ro.":
+            return readonly
+        return True
+
+    def judge_cell(kind, s, prefix, deep, cap, wit):
+        """(read-only kind x ro.) / (immutable kind x imm./deep) -> same kind, same string, read-only."""
+        exp = expected_known(kind, prefix, deep)
+        if not exp:
+            return
+        ck.mon("truth-table-consistent-cell")
+        ck.hit("consistent-cell")
+        if type(cap).__name__ != kind.cls or cap.to_string() != s:
+            ck.violation("consistent-prefix-rejected",
+                         "from_string(%r, deep_immutable=%r) -> %s; a %s already satisfies the alleged constraint and "
+                         "must stay a %s" % (wit["cap"], deep, type(cap).__name__, kind.name, kind.cls), wit)
+
+    def judge_cell_node(kind, s, prefix, deep, n, slot_args, nm, wit):
+        exp = expected_known(kind, prefix, deep)
+        if not exp:
+            return
+        ck.mon("truth-table-consistent-cell")
+        # reference: the same slot filled with the unprefixed string in a plain context
+        ref = nm.create_from_cap(*[None if a is None else a[len(prefix):] for a in slot_args])
+        keep.append(ref)
+        if flag(ref, "is_unknown", False):
+            ck.skip("kind-has-no-node-class")         # verify caps of mutable files/dirs
+            return
+        ck.hit("consistent-cell-node")
+        same = type(n) is type(ref) and not flag(n, "is_unknown", False)
+        if same and hasattr(ref, "get_uri"):
+            same = n.get_uri() == ref.get_uri()
+        if not same:
+            ck.violation("consistent-prefix-rejected",
+                         "create_from_cap(%s) -> %s; without the (already satisfied) prefix/context it is a %s"
+                         % (wit["call"], type(n).__name__, type(ref).__name__), wit)
+
     def judge_cap(cap, restricted_ro, restricted_imm, wit):
         ck.mon("truth-table-cap")
         if type(cap).__name__ == "UnknownURI":
@@ -375,6 +420,7 @@ def run(ck):
                     for inp in (P, P.decode("ascii")):
                         cap = uri.from_string(inp, deep_immutable=deep)
                         judge_cap(cap, restricted_ro, restricted_imm, wit)
+                        judge_cell(kind, s, prefix, deep, cap, wit)
                     if len(prefix) > 4 and type(cap).__name__ != "UnknownURI":
                         ck.violation("doubled-prefix-parsed-as-known", "from_string(%r) -> %s" % (show(P), type(cap).__name__), wit)
                     ck.case("table-cap", key=("Bc", P, deep))
@@ -390,6 +436,7 @@ def run(ck):
                                 continue
                             keep.append(n)
                             judge_node(n, restricted_ro, restricted_imm, w2)
+                            judge_cell_node(kind, s, prefix, deep, n, args, nm, w2)
                             if restricted_ro or restricted_imm:
                                 ck.hit("restricted-context-node")
                             ck.case("table-node", key=("Bn", P, deep, slot, nm is shared),
@@ -567,7 +614,9 @@ def run(ck):
 
     ck.exhaustive = False
     ck.require_monitor("derivation-chain", "node-chain", "secret-search", "authority-flags", "truth-table-cap",
-                       "truth-table-node", "unknown-node-oracle", "strip-prefix-reread", "dir-reread")
+                       "truth-table-node", "truth-table-consistent-cell", "unknown-node-oracle", "strip-prefix-reread",
+                       "dir-reread")
+    ck.require_reach("consistent-cell", "consistent-cell-node")
     ck.require_reach("alleged-prefix-makes-unknown", "imm-context-known-cap", "ro-context-known-cap", "node-unknown",
                      "node-known", "restricted-context-node", "unknown-node-opaque", "strip_prefix_for_ro",
                      "unpack:readonly-dir", "unpack:immutable-dir")
@@ -591,5 +640,7 @@ def run(ck):
 #  14. DirectoryNode._unpack_contents decrypts rw caps for RO dirs  -> readonly-dir-yields-writeable-child
 #  15. CHKFileURI.get_verify_cap() passes the key as storage index  -> derivation-chain-mismatch, derived-cap-leaks-secret
 #  16. NodeMaker memokey ignores deep_immutable                     -> alleged-immutable-parsed-as-mutable
+#  17. seeded C15-1: 'URI:DIR2-MDMF-RO:' branch guarded by can_be_writeable (ro.+readcap -> UnknownURI/UnknownNode)
+#                                                                    -> consistent-prefix-rejected
 #  inert (equivalent mutant, exit 0): "deep-immutable branch assigns rw_uri = given_rw_uri" alone -- given_rw_uri is
 #  always None there because the earlier branches already returned or moved it.
